@@ -192,6 +192,23 @@ fn run_verify(c: &Case, t: &mut Tally) -> (Exp, Vec<(String, String)>) {
     t.outcome("reference", exp.name());
     if exp == Exp::Unspecified {
         t.unspecified += 1;
+        // differential part of the property that needs no reference: if the signed event verifies, the
+        // copy ruma's own `redact` makes of it still has valid signatures — whatever that redaction keeps
+        if !c.force_unspecified && c.label.ends_with("/redacted-by-ruma") && got == Exp::Err {
+            let orig_obj = to_canonical_obj(&c.orig.signed);
+            t.transitions += 1;
+            if let Ok(Ok(_)) = catch(|| verify_event(&map, &orig_obj, &rules)) {
+                viol.push((
+                    format!("redacted-copy-fails/v{}/{}", c.v, c.family),
+                    format!(
+                        "v{} {}: the signed event verifies, ruma's redacted copy of it does not: {}",
+                        c.v,
+                        c.family,
+                        Value::Object(c.event.clone())
+                    ),
+                ));
+            }
+        }
     } else if exp != got {
         viol.push((
             // the signer-set prefix of the label is part of the case, not of the class
@@ -238,7 +255,9 @@ fn sign(v: u8, ev: &Map<String, Value>, mask: u32, t: &mut Tally) -> Result<Orig
     let mut back = signed.clone();
     back.remove("signatures");
     back.remove("hashes");
-    if mask != 0 && back != *ev {
+    let mut ev_no_hashes = ev.clone();
+    ev_no_hashes.remove("hashes");
+    if mask != 0 && back != ev_no_hashes {
         return Err((format!("hash_and_sign_event/changed-event/v{v}"), format!("{} -> {}", Value::Object(ev.clone()), Value::Object(signed))));
     }
     let rc = red_canon(v, &signed).ok().flatten();
@@ -506,6 +525,11 @@ fn main() {
             let mut e = fam.event.clone();
             e.remove("unsigned");
             shards.push((v, named("no-unsigned", e)));
+            // an event that arrives with a content hash that does not match (a stale one from an earlier
+            // version of the content, or another algorithm's entry): hashing and signing must replace it
+            let mut e = fam.event.clone();
+            e.insert("hashes".into(), json!({"sha256": "c3RhbGUgaGFzaCBvZiBhbiBlYXJsaWVyIGNvbnRlbnQ", "md5": "b3RoZXI"}));
+            shards.push((v, named("stale-hashes", e)));
             if let RefRedact::Must(mut m) = spec::redact_event(v, &fam.event) {
                 m.remove("unsigned");
                 shards.push((v, named("kept-only", m.clone())));
@@ -514,7 +538,7 @@ fn main() {
             }
         }
     }
-    report.set("shapes", json!(["full", "no-unsigned", "kept-only", "kept-only+unsigned"]));
+    report.set("shapes", json!(["full", "no-unsigned", "stale-hashes", "kept-only", "kept-only+unsigned"]));
     par_shards(&report, shards.len(), |i, t| {
         let (v, fam) = (shards[i].0, &shards[i].1);
         let mut n = 0usize;
